@@ -97,8 +97,14 @@ func callsIn(f *ssa.Function, pred func(ssa.CallInstruction) bool) []ssa.CallIns
 	return out
 }
 
+// callsToFn: plain (not deferred, not go) static calls of callee in f.
 func callsToFn(f *ssa.Function, callee *ssa.Function) []ssa.CallInstruction {
-	return callsIn(f, func(c ssa.CallInstruction) bool { return staticCallee(c) == callee })
+	return callsIn(f, func(c ssa.CallInstruction) bool {
+		if _, ok := c.(*ssa.Call); !ok {
+			return false
+		}
+		return staticCallee(c) == callee
+	})
 }
 
 func callsToName(f *ssa.Function, name string) []ssa.CallInstruction {
